@@ -23,7 +23,54 @@ type SolveResult struct {
 	Script  string
 }
 
+// heapSyms: the heap-like symbols (E_, H_, MD_, MV_, G_, g_) of a term, version suffixes stripped.
+func heapSyms(t string) map[string]bool {
+	out := map[string]bool{}
+	for _, s := range symbolsIn(t) {
+		if strings.HasPrefix(s, "E_") || strings.HasPrefix(s, "H_") || strings.HasPrefix(s, "MD_") || strings.HasPrefix(s, "MV_") || strings.HasPrefix(s, "G_") || strings.HasPrefix(s, "g_") {
+			if i := strings.Index(s, "!"); i > 0 {
+				s = s[:i]
+			}
+			out[s] = true
+		}
+	}
+	return out
+}
+
+var relevanceFilter = false
+
 func assembleScript(reg *Registry, o *Obligation, forCVC5 bool, wantModel bool, dropExists bool) string {
+	return assembleScriptRel(reg, o, forCVC5, wantModel, dropExists, false)
+}
+
+func assembleScriptRel(reg *Registry, o *Obligation, forCVC5 bool, wantModel bool, dropExists bool, relevant bool) string {
+	var goalHeaps map[string]bool
+	if relevant {
+		goalHeaps = heapSyms(o.Goal)
+		// heaps reachable through definitions used by the goal
+		defs := map[string]string{}
+		for _, it := range o.Items {
+			if it.Def != "" {
+				defs[it.Def] = it.Term
+			}
+		}
+		work := symbolsIn(o.Goal)
+		seen := map[string]bool{}
+		for len(work) > 0 {
+			s := work[len(work)-1]
+			work = work[:len(work)-1]
+			if seen[s] {
+				continue
+			}
+			seen[s] = true
+			if t, ok := defs[s]; ok {
+				for h := range heapSyms(t) {
+					goalHeaps[h] = true
+				}
+				work = append(work, symbolsIn(t)...)
+			}
+		}
+	}
 	// prune unused definitions (walk backwards)
 	need := map[string]bool{}
 	mark := func(t string) {
@@ -59,6 +106,9 @@ func assembleScript(reg *Registry, o *Obligation, forCVC5 bool, wantModel bool, 
 		} else if dropExists && strings.Contains(it.Term, "(exists ") {
 			// weakened variant: hypotheses with nested existentials are dropped (sound: fewer assumptions)
 			continue
+		} else if relevant && strings.Contains(it.Term, "(forall ") && !sharesHeap(it.Term, goalHeaps) {
+			// relevance-filtered variant: quantified hypotheses about unrelated heaps are dropped (sound)
+			continue
 		} else {
 			fmt.Fprintf(&body, "(assert %s)\n", it.Term)
 		}
@@ -88,6 +138,15 @@ func assembleScript(reg *Registry, o *Obligation, forCVC5 bool, wantModel bool, 
 		sb.WriteString("(get-model)\n")
 	}
 	return sb.String()
+}
+
+func sharesHeap(t string, hs map[string]bool) bool {
+	for h := range heapSyms(t) {
+		if hs[h] {
+			return true
+		}
+	}
+	return false
 }
 
 type Solver struct {
@@ -237,6 +296,10 @@ func (d *Discharger) Discharge(reg *Registry, o *Obligation) *OblResult {
 		if weak != script {
 			atts = append(atts, attempt{byName("z3-new"), weak, "w", true}, attempt{byName("z3-nomb"), weak, "w", true})
 		}
+		rel := assembleScriptRel(reg, o, false, false, true, true)
+		if rel != script && rel != weak {
+			atts = append(atts, attempt{byName("z3-new"), rel, "r", true}, attempt{byName("z3-new-nomb"), rel, "r", true}, attempt{byName("z3-nomb"), rel, "r", true})
+		}
 	}
 	ch := make(chan SolveResult, len(atts))
 	pctx, pcancel := context.WithCancel(context.Background())
@@ -247,8 +310,11 @@ func (d *Discharger) Discharge(reg *Registry, o *Obligation) *OblResult {
 			if a.weak && sr.Status == "sat" {
 				sr.Status = "unknown" // a model of weakened hypotheses refutes nothing
 			}
-			if a.tag != "" {
+			if a.tag == "w" {
 				sr.Solver += "+weakened"
+			}
+			if a.tag == "r" {
+				sr.Solver += "+relevant"
 			}
 			ch <- sr
 		}(a)
